@@ -119,7 +119,7 @@ def _partials(prog, kids):
 
 class Analysis(object):
     """Result of analysing program prog at x0 (real float)."""
-    __slots__ = ('jet', 'R_an', 'noise', 'x0', 'K', 'ok', 'why')
+    __slots__ = ('jet', 'R_an', 'noise', 'x0', 'K', 'ok', 'why', '_absc', '_mc')
 
     def coeff_abs(self, k):
         return float(abs(self.jet[k]))
@@ -133,16 +133,25 @@ class Analysis(object):
             rho = min(step_nom(self.x0), self.R_an / 2.0)
         if not rho > 0:
             return float('inf'), rho, False
-        m = self.noise
-        p = 1.0
-        terms = []
-        for k in range(self.K):
-            t = self.coeff_abs(k) * p
-            terms.append(t)
-            if t > m:
-                m = t
-            p *= rho
-        resolved = terms[-1] <= 1e-3 * m and math.isfinite(m)
+        if getattr(self, '_mc', None) is None:
+            self._mc = {}
+        cache = self._mc
+        hit = cache.get(rho)
+        if hit is None:
+            if getattr(self, '_absc', None) is None:
+                self._absc = [float(abs(a)) for a in self.jet]
+            m = self.noise
+            p = 1.0
+            last = 0.0
+            for t0 in self._absc:
+                t = t0 * p
+                last = t
+                if t > m:
+                    m = t
+                p *= rho
+            hit = (m, last <= 1e-3 * m and math.isfinite(m))
+            cache[rho] = hit
+        m, resolved = hit
         S = math.factorial(n) * m / rho ** n
         return S, rho, resolved and math.isfinite(S)
 
